@@ -255,3 +255,63 @@ UNITS += [
          assumptions=["std::remove_if / exclusive_scan contracts assumed; kernels replaced by their contracts", "capacity + total secondaries of the step < 2^63 (stated range so that the counter addition does not wrap)"],
          note="ExtendFromSecondariesAction::step_impl: capacity validated before ProcessSecondaries writes; num_alive = size - num_vacancies; num_initializers += total"),
 ]
+
+
+# ---------------------------------------------------------------------------
+# CoreState<M>::reset (host): after a reset nothing of the aborted event is left in the counters, the slot statuses or the vacancy list
+# ---------------------------------------------------------------------------
+CST = "src/celeritas/global/CoreState.cc"
+RESET_MODEL = """
+typedef struct { size_type num_initializers, num_vacancies, num_secondaries, num_alive, num_active, num_generated, num_pending; } CoreStateCounters;   /* all default-initialised to {0}: checked on the text of CoreStateCounters.hh each run (num_pending: not a member of the real struct, kept for the shared model) */
+typedef struct { CoreStateCounters counters_; size_type size_; } CoreState;
+enum { TS_inactive = 0 };
+int g_status_fill = -1; int g_vacancies_identity; unsigned g_fills;     /* ghost: value every sim.status entry was filled with; vacancies = 0,1,2,... */
+static void FILL_status(CoreState* st, int status) { g_status_fill = status; ++g_fills; }
+static void FILL_sequence_vacancies(CoreState* st) { g_vacancies_identity = 1; ++g_fills; }
+"""
+RESET_RULES = [
+    Rule(r"counters_ = CoreStateCounters\{\};", "{ CoreStateCounters z_ = {0, 0, 0, 0, 0, 0, 0}; self->counters_ = z_; }", 1, note="value-initialised counters (all members default to 0)"),
+    Rule(r"counters_\.", "self->counters_.", "*", note="data member"),
+    Rule(r"this->size\(\)", "self->size_", "*", note="CoreState::size()"),
+    Rule(r"fill\(TrackStatus::(\w+), &this->ref\(\)\.sim\.status\);", r"FILL_status(self, TS_\1);", "*", note="fill(status collection) -> ghost"),
+    Rule(r"fill_sequence\(&this->ref\(\)\.init\.vacancies, this->stream_id\(\)\);", "FILL_sequence_vacancies(self);", "*", note="fill_sequence(vacancies) -> ghost"),
+]
+
+
+def build_core_state_reset(ctx):
+    pc = ctx.func(CST, r"^void CoreState<M>::reset\(\)", RESET_RULES, name="CoreState<M>::reset (host)")
+    # value-initialisation `CoreStateCounters{}` zeroes every counter only if every member's default initialiser is {0}: checked on the struct's text each run
+    import re
+    from vkit.extract import ExtractionDrift
+    st = ctx.func("src/celeritas/track/CoreStateCounters.hh", r"^struct CoreStateCounters", [], name="struct CoreStateCounters")
+    decls = re.findall(r"^\s*(\w[\w:<> ]*?)\s+(\w+)\s*(\{[^{}]*\})?\s*;", st.body, flags=re.M)
+    for ty, nm, init in decls:
+        if ty != "size_type" or init != "{0}":
+            raise ExtractionDrift("CoreStateCounters member %s %s%s is not `size_type name{0}`: CoreStateCounters{} would not zero it" % (ty, nm, init))
+    if not {"num_initializers", "num_vacancies", "num_secondaries", "num_alive", "num_active", "num_generated"} <= {d[1] for d in decls}:
+        raise ExtractionDrift("CoreStateCounters members changed: %s" % [d[1] for d in decls])
+    return (HDR + RESET_MODEL + """
+void CS_reset(CoreState* self)
+__CPROVER_requires(__CPROVER_rw_ok(self, sizeof(*self)) && g_fills == 0 && g_vacancies_identity == 0 && g_status_fill == -1)
+__CPROVER_assigns(self->counters_, g_status_fill, g_vacancies_identity, g_fills)
+/* nothing queued, alive, active or pending is left over from an aborted event; every slot is vacant */
+__CPROVER_ensures(self->counters_.num_initializers == 0 && self->counters_.num_secondaries == 0 && self->counters_.num_alive == 0 && self->counters_.num_active == 0 && self->counters_.num_pending == 0 && self->counters_.num_generated == 0)
+__CPROVER_ensures(self->counters_.num_vacancies == self->size_)
+/* ... every track slot is inactive and the vacancy list names every slot once (0, 1, 2, ...) */
+__CPROVER_ensures(g_status_fill == TS_inactive && g_vacancies_identity == 1)
+{""" + pc.body + """}
+void h_csr(void)
+{
+    CoreState s;
+    g_status_fill = -1;
+    CS_reset(&s);
+    VERIF_CANARY();
+}
+""")
+
+
+UNITS += [
+    Unit("c16_core_state_reset", build_core_state_reset, "h_csr", enforce="CS_reset", timeout=60, backend=["sat"], must_have=[r"CS_reset.postcondition"], checks=["--bounds-check", "--pointer-check"],
+         assumptions=["fill / fill_sequence lowered to ghost flags (which collection is filled with what)"],
+         note="CoreState::reset (host): all counters zero, num_vacancies == size, every slot inactive, vacancy list = every slot once"),
+]
